@@ -32,10 +32,16 @@ type probeResults struct {
 	SliceValResetCatch, SliceValResetExit                                 bool
 	PrimParsePostClearsCatch, PrimValPostClearsCatch                      bool
 	KeyBufGuard, NilProvGuard, UnexportedGuard, EmptySegGuard, MapConvert bool
+	UnwrapNilGuard, EmbeddedNilGuard, NilBodyGuard                        bool
 	CloneCopies                                                           bool
 	SliceDefaultDeep                                                      bool
 }
 
+type prEmbedded struct{ A string }
+type prEmbedding struct {
+	*prEmbedded
+	B int
+}
 type prNamedMap map[string]any
 
 func runProbes() probeResults {
@@ -156,6 +162,23 @@ func runProbes() probeResults {
 		var d One
 		one.Parse(prNamedMap{"a": "x"}, &d)
 		one.Parse(map[string]prNamedMap{"a": {}}, &d)
+	})
+
+	r.UnwrapNilGuard = noPanic(func() {
+		var d One
+		var np *string
+		pass := func(v any, ctx z.Ctx) (any, error) { return v, nil }
+		z.Struct(z.Schema{"a": z.Preprocess(pass, z.String())}).Parse(map[string]any{"a": np}, &d)
+		z.Struct(z.Schema{"a": z.Preprocess(pass, z.String())}).Parse(map[string]any{"a": &np}, &d)
+	})
+	r.EmbeddedNilGuard = noPanic(func() {
+		var d One
+		one.Parse(prEmbedding{}, &d)
+		z.Struct(z.Schema{"A": z.String()}).Parse(&prEmbedding{}, &d)
+	})
+	r.NilBodyGuard = noPanic(func() {
+		var d One
+		one.Parse(zjson.Decode(nil), &d)
 	})
 
 	// --- struct helpers: derived schemas own their tests / postTransforms arrays -------------------------
